@@ -117,6 +117,18 @@ func genTSConfig(k *kernel.K, gen int) *tsConfig {
 		if len(s.Throttles) == 2 && w.Chance(1, 2) {
 			s.Throttles[0], s.Throttles[1] = s.Throttles[1], s.Throttles[0]
 		}
+		if w.Chance(1, 6) {
+			// a staircase: adjoining throttles of one bandwidth, none longer than a second's worth;
+			// together they throttle the whole stretch like one interval
+			s.Throttles = nil
+			bw := int64([]int{500, 1000}[w.Draw(2)])
+			ln := bw / int64(1+w.Draw(2))
+			pos := int64(w.Draw(2)) * 700
+			for j, m := 0, 4+w.Draw(5); j < m; j++ {
+				s.Throttles = append(s.Throttles, &tsThrottle{Bandwidth: bw, start: pos, end: pos + ln, Bytes: fmt.Sprintf("%d-%d", pos, pos+ln)})
+				pos += ln
+			}
+		}
 		for j, m := 0, w.Draw(3); j < m; j++ {
 			s.Halts = append(s.Halts, &tsHalt{Byte: int64(w.Draw(8) * 700), Duration: int64([]int{100, 1500, 20000}[w.Draw(3)]), Count: int64([]int{1, 2, -1}[w.Draw(3)])})
 		}
@@ -610,7 +622,19 @@ func c18Check(k *kernel.K, e *tsEx, cl *Client, model *tsConfig, latency time.Du
 		}
 	}
 	// throttles: a conservative lower bound from the token bucket (capacity per second)
-	for _, t := range shape.Throttles {
+	// (adjoining throttles of one bandwidth count as one interval)
+	ths := append([]*tsThrottle(nil), shape.Throttles...)
+	sort.SliceStable(ths, func(a, b int) bool { return ths[a].start < ths[b].start })
+	var merged []*tsThrottle
+	for _, t := range ths {
+		if m := len(merged); m > 0 && merged[m-1].end == t.start && merged[m-1].Bandwidth == t.Bandwidth {
+			k.Probe("adjoining_throttles_one_bandwidth")
+			merged[m-1] = &tsThrottle{Bandwidth: t.Bandwidth, start: merged[m-1].start, end: t.end, Bytes: fmt.Sprintf("%d-%d (adjoining intervals)", merged[m-1].start, t.end)}
+			continue
+		}
+		merged = append(merged, t)
+	}
+	for _, t := range merged {
 		lo, hi := t.start, t.end
 		if hi < 0 || hi > e.rangeStart+delivered {
 			hi = e.rangeStart + delivered
